@@ -95,9 +95,10 @@ type Val struct {
 }
 
 type pathStep struct {
-	Field int          // struct field index, or -1
+	Field int // struct field index, or -1
+	T     types.Type // the aggregate type (named struct) the step applies to
 	St    *types.Struct
-	Idx   string       // array index term when Field == -1
+	Idx   string // array index term when Field == -1
 	ESort string
 }
 
